@@ -99,6 +99,18 @@ CHECKS = {
         note="Trusted: HmsCast as the reading of the property's conversion list; floats as halves; the worker's "
              "value projection.",
         design="5/C12"),
+    "C13": dict(
+        technique="TLA+ spec of values (HmsValue: structural equality, clone as independent copy, mutation histories) "
+                  "enumerated by TLC; every pair / history / JSON-representable value replayed on the runtime value "
+                  "libraries",
+        text="For 20 static types TLC enumerates all value pairs with the specified structural equality (checked "
+             "reflexive/symmetric in the model), all histories Clone + <= 2/3 mutations on either side with the "
+             "resulting pair of trees, and all JSON-representable values. Both value libraries must agree with the "
+             "specified equality in both directions, render equal values identically in both runtimes, keep original "
+             "and copy independent after every history, and return an equal value from to_json -> parse_json -> cast.",
+        note="Trusted: HmsValue, the worker's projection. The interpreter's library has no Clone (copy laws on the "
+             "VM's library only).",
+        design="5/C13"),
 }
 
 NOT_YET = {}
